@@ -348,7 +348,11 @@ func genC01() []*InstCase {
 		}
 		// --- INT
 		for _, v := range []int64{0, 1, 3, 0x10, 0x13, 0x15, 0x21, 0x7f, 0x80, 0xfe, 0xff} {
-			g.add("INT", mode, "imm8", "n="+immClass(v), ximm(v, 1))
+			cls := immClass(v)
+			if v == 3 {
+				cls = "three"
+			}
+			g.add("INT", mode, "imm8", "n="+cls, ximm(v, 1))
 		}
 		// --- RET forms
 		for _, mn := range []string{"RET", "RETN", "RETF"} {
